@@ -53,3 +53,19 @@ Proof.
          ([s "g"; s "h"], s "ta"), ([], s "x").
   split; reflexivity.
 Qed.
+
+(* before C11-fix2-1 the reader stripped the group prefix from the flattened name: the basename
+   was wrong for a name that carries a counter (or is hashed) *)
+Theorem C11_old_unflatten_counter_refuted :
+  unflatten_var_old (s "a__b_1") (s "/a/b") = ([s "a"], s "/a/b", s "b_1") /\
+  unflatten_var (s "a__b_1") (s "/a/b") = ([s "a"], s "/a/b", s "b").
+Proof. split; reflexivity. Qed.
+
+(* before C11-fix2-2 the writer's only check (dims_visible) accepted a variable one of whose
+   dimensions is hidden by a same-named dimension in a group between (F11f) *)
+Theorem C11_old_hidden_dimension_accepted_refuted :
+  exists root,
+  dims_visible true (s "/a/b/ta") [s "x"; s "/a/x"] = true /\
+  nc_lookup_dim root [s "b"; s "a"] (s "x") = Some [s "a"] /\
+  writer_accepts root true (s "/a/b/ta") [s "x"; s "/a/x"] = false.
+Proof. exists (G [] [s "x"] [] [G (s "a") [s "x"] [] [G (s "b") [] [] []]]). repeat split; reflexivity. Qed.
